@@ -1814,3 +1814,81 @@ example :
     let s1 := (stepX s0 (.poke 0 0 1 9)).1
     (viewAt s1 0).toOption.map (·.cols) = some [(0, ⟨.i64, [3, 9, 2]⟩), (2, ⟨.i64, [3, 9, 2]⟩)] ∧
     (stepX s0 (.poke 0 0 5 9)).2 = .error .index ∧ (stepX s0 (.poke 0 7 0 9)).2 = .error .key := by decide
+
+/-- **`set_selection` inside a history with sharing elsewhere.**  Locations may be shared anywhere in the store (`GoodS`);
+if the columns of the *target* container sit at pairwise distinct locations that no other container binds, then
+`set_selection` on it still refines the plain tables — every other container keeps its table, the target gets the plain-table
+result, equal results and errors. (Closes the gap left by `c16_refines_shared`, which excludes every `set_selection`.) -/
+theorem c16_setSel_refines_local {s : St} {ts : List Table} (g : GoodS s ts) (c : Nat) (sel : Sel) (d : Nat) (cont : Cont)
+    (hcc : s.conts[c]? = some cont) (hl : (cont.fields.map (·.2)).Nodup)
+    (hx : ∀ (j : Nat) (dj : Cont) (n m l : Nat), j ≠ c → s.conts[j]? = some dj → (n, l) ∈ cont.fields → (m, l) ∉ dj.fields) :
+    GoodS (stepH s (.setSel c sel d)).1 (stepT ts (.setSel c sel d)).1 ∧
+    (stepH s (.setSel c sel d)).2 = (stepT ts (.setSel c sel d)).2 := by
+  unfold stepH stepT
+  rw [view_eqS g, g.len]
+  cases hr : tableOp (getT ts) ts.length (.setSel c sel d) with
+  | error e => exact ⟨g, rfl⟩
+  | ok r =>
+    obtain ⟨tgt, u, out⟩ := r
+    have ok := tableOp_ok ts g.wf _ tgt u out hr
+    have htgt : tgt = .inplace c := by
+      simp only [tableOp, bind_ok] at hr
+      obtain ⟨t, _, s2, _, srcs, _, cols, _, hr⟩ := hr
+      simp only [pure_eq, Except.ok.injEq, Prod.mk.injEq] at hr
+      exact hr.1.symm
+    subst htgt
+    obtain ⟨wfu, t, htc, hprov, hnames, hlen⟩ := ok
+    have hc : c < s.conts.length := (List.getElem?_eq_some_iff.mp hcc).1
+    have r := g.rep c cont t hcc htc
+    have hk : (cont.fields.map (·.1)).Nodup := by rw [r.keys]; exact (g.wf t (List.mem_of_getElem? htc)).1
+    obtain ⟨h', fs, hp, hlen', hfr, habs, hloc, hnd⟩ := place_spec cont.fields hk hl u.cols s.heap
+      (fun p hp => valid_of_repS r (n := p.1) hp) hprov.1 (by
+        intro e he
+        have := hprov.2 e he
+        unfold EntryOK
+        split
+        · trivial
+        · rename_i o hpe
+          rw [hpe] at this
+          obtain ⟨l, hl1, hl2⟩ := r.field_of_col this
+          exact ⟨l, hl1, hl2⟩
+        · rename_i o hpe
+          rw [hpe] at this
+          have : o ∈ cont.fields.map (·.1) := by rw [r.keys]; exact this
+          obtain ⟨p, hp, rfl⟩ := List.mem_map.mp this
+          exact ⟨p.2, hp⟩)
+    simp only [hcc, hp]
+    have hfskeys : fs.map (·.1) = u.cols.map (·.1) := by
+      have := congrArg (List.map (·.1)) habs
+      simpa [List.map_map, Function.comp_def] using this
+    refine ⟨⟨by simp [g.len], ?_, ?_⟩, trivial⟩
+    · intro i ci ti hci hti
+      by_cases hic : i = c
+      · subst hic
+        simp only [List.getElem?_set_self hc, Option.some.injEq] at hci
+        have hc' : i < ts.length := by rw [← g.len]; exact hc
+        simp only [List.getElem?_set_self hc', Option.some.injEq] at hti
+        subst hci hti
+        refine ⟨?_, ?_, rfl, ?_⟩
+        · simp only [Upd.table, List.map_map, Function.comp_def]; exact habs
+        · simp only [Upd.table, Table.keys, List.map_map, Function.comp_def]
+          rw [r.names]; exact hnames fs hfskeys
+        · exact idxUpd_ok cont.idx cont.len u.len _ r.idx (fun h => by rw [hlen h, ← r.len])
+      · rw [List.getElem?_set_ne (Ne.symm hic)] at hci hti
+        have ri := g.rep i ci ti hci hti
+        refine repS_frame ri ?_
+        intro n l hm
+        refine hfr l (valid_of_repS ri hm) ?_
+        intro o _ hmo
+        exact hx i ci o n l hic hci hmo hm
+    · intro t' ht'
+      rcases List.mem_or_eq_of_mem_set ht' with h1 | h1
+      · exact g.wf t' h1
+      · rw [h1]; exact wfu
+
+/-- non-vacuity: container 0 shares a column with a holder (container 1); `set_selection` on the unrelated container 2 meets
+the hypotheses (its own locations 2, 3 are distinct and bound nowhere else) -/
+example :
+    let s := runX ⟨[], []⟩ [.base (.new [(0, ⟨.i64, [3, 1]⟩)]), .newShared 0 0, .base (.new [(0, ⟨.i64, [5, 6]⟩), (1, ⟨.f32, [7, 8]⟩)])]
+    (s.conts.map (·.fields)) = [[(0, 0)], [(0, 0)], [(0, 1), (1, 2)]] ∧
+    (stepH s (.setSel 2 (.idx [1, 0]) 2)).2 = .ok .unit := by decide
